@@ -193,41 +193,8 @@ func entitlementGuard(c *Ctx, row entRow, h *ssa.Function) {
 			return false
 		}
 	case "owner":
-		sec := regSection[row.Module]
 		want = "addr(msg." + row.Field + ") equals the stored Owner of registration msg." + row.IDField
-		m = func(p ir.Pred) bool {
-			if !p.Pol {
-				return false
-			}
-			e := p.E
-			if e.Op == "call" && strings.HasSuffix(e.Name, "AccAddress).Equals") && len(e.Args) == 2 {
-				for _, pr := range [][2]*ir.Expr{{e.Args[0], e.Args[1]}, {e.Args[1], e.Args[0]}} {
-					if !isAddrOf(pr[0], row.Field) {
-						continue
-					}
-					other := w.Expand(pr[1], 5)
-					sf := mentionsStateField(other, sec, "Owner")
-					if sf == nil {
-						continue
-					}
-					// every non-empty alternative must be the address of that stored owner, for the id named in the message
-					good := true
-					for _, a := range other.Alts() {
-						if a.Op == "list" || a.Op == "slice" || a.Op == "zero" || a.Op == "const" {
-							continue // the empty address returned for unknown ids
-						}
-						if mentionsStateField(a, sec, "Owner") == nil {
-							good = false
-						}
-					}
-					ka := keyArgs(stateKey(sf))
-					if good && len(ka) == 1 && isMsgField(ka[0], row.IDField) {
-						return true
-					}
-				}
-			}
-			return false
-		}
+		m = ownerMatcher(c, row.Module, row.Field, row.IDField)
 	case "authority":
 		want = "req." + row.Field + " equals the keeper's authority"
 		m = func(p ir.Pred) bool {
@@ -491,4 +458,44 @@ func legacyHandlers(c *Ctx) {
 		r.Require(bad == "", "A1.legacy-handler", fn(f), w.Pos(f.Pos()), "legacy handlers change state only by forwarding to the MsgServer methods", bad)
 	}
 	r.Analysed["legacy_handlers"] = n
+}
+
+// ownerMatcher accepts the predicate "addr(msg.<field>) equals the stored Owner of the
+// registration named by msg.<idField>" (looking through the keeper's owner getter).
+func ownerMatcher(c *Ctx, module, field, idField string) ir.Matcher {
+	w := c.W
+	sec := regSection[module]
+	return func(p ir.Pred) bool {
+		if !p.Pol {
+			return false
+		}
+		e := p.E
+		if e.Op == "call" && strings.HasSuffix(e.Name, "AccAddress).Equals") && len(e.Args) == 2 {
+			for _, pr := range [][2]*ir.Expr{{e.Args[0], e.Args[1]}, {e.Args[1], e.Args[0]}} {
+				if !isAddrOf(pr[0], field) {
+					continue
+				}
+				other := w.Expand(pr[1], 5)
+				sf := mentionsStateField(other, sec, "Owner")
+				if sf == nil {
+					continue
+				}
+				// every non-empty alternative must be the address of that stored owner, for the id named in the message
+				good := true
+				for _, a := range other.Alts() {
+					if a.Op == "list" || a.Op == "slice" || a.Op == "zero" || a.Op == "const" {
+						continue // the empty address returned for unknown ids
+					}
+					if mentionsStateField(a, sec, "Owner") == nil {
+						good = false
+					}
+				}
+				ka := keyArgs(stateKey(sf))
+				if good && len(ka) == 1 && isMsgField(ka[0], idField) {
+					return true
+				}
+			}
+		}
+		return false
+	}
 }
